@@ -63,6 +63,17 @@ Proof.
   - split; [|lia]. symmetry. apply Z.quot_div_nonneg; nia.
 Qed.
 
+(* the same as ONE unit (robust against the two formulas being moved into a helper function) *)
+(* TIE: Payout_share *)
+Theorem Payout_share_full_tie amount n w r : 0 <= amount -> 0 < n -> 0 <= w -> 0 <= r_weight r ->
+  share amount n w r = Payout_share amount n (r_weight r) w /\ Payout_share_panics amount n (r_weight r) w = false.
+Proof.
+  intros Ha Hn Hw Hr. unfold share, Payout_share, Payout_share_panics.
+  destruct (w =? 0) eqn:E.
+  - split; [|lia]. symmetry. apply Z.quot_div_nonneg; lia.
+  - split; [|lia]. symmetry. apply Z.quot_div_nonneg; nia.
+Qed.
+
 (* the oracle's view of the records: GetAllUniqueNftToVerify and SetRecipients select with the same test,
    and with the cut-off "round start - 1" it is the model's "created strictly before the round start" *)
 (* TIE: Verify_selects SetRecipients_selects *)
